@@ -39,7 +39,7 @@ HAZARD_PROBES = ['geobox_sanity_mismatch', 'interior_fill_differs_non_nearest', 
 ASSUMPTIONS = [
     "O13.1 (exact equality) applies to same-CRS nearest-neighbour runs; on inexact grids destination centres within 1e-6 px of a source pixel edge are left out (counted)",
     "O13.2/O13.5 use a safety margin of 3 source + 3 destination pixels around the projected footprint, computed with affine/pyproj/numpy",
-    "source pixel values never equal the fill value",
+    "source pixel values never equal the fill value, except the planted pixels equal to the source nodata (35 % of runs with a source nodata)",
     "whole-world / polar pairs come from six fixed templates (GLOBAL_TEMPLATES) with drawn chunkings; on them the tile-overlap computation raises for pole-containing footprints and for 360-degree-wide destination chunks (known findings D13g, D13h)",
     "cross-CRS rasters are local (at most ~150 km across): on continental extents the per-chunk source-tile lookup approximates curved outlines too coarsely (C12's dependency completeness, not claimed) - see DESIGN 7.3",
 ]
@@ -111,6 +111,7 @@ def generate(rng: random.Random, tier: str) -> dict:
     if rng.random() < 0.04:
         mode = "cross-global"
     sides = [1, 2, 3, 5, 8, 13, 16, 17, 24, 31, 48] + ([64, 96] if tier == "thorough" else [])
+    aligned_chunks = False
     sny, snx = rng.choice(sides), rng.choice(sides)
     g_tpl = rng.choice(sorted(GLOBAL_TEMPLATES))
     if mode == "cross-global":
@@ -229,6 +230,42 @@ def generate(rng: random.Random, tier: str) -> dict:
         dox = bx0 if dsx > 0 else bx0 + dnx * dps
         doy = by0 if dsy > 0 else by0 + dny * dps
         dst_aff = [dps * dsx, 0.0, dox, 0.0, dps * dsy, doy]
+        special = rng.random()
+        if mode == "same-exact" and place != "sliver" and special < 0.16:
+            # (special < 0.10) chunk-aligned: same pixel size and orientation, shifted by whole source chunks, so
+            # that destination chunks coincide with source chunks (what a crop, a re-chunk or "same grid, other
+            # nodata" request looks like); (otherwise) unit-pixel grids through the CRS origin with a chunk corner
+            # - or the whole raster's corner - exactly at (0, 0), e.g. the south-east quadrant of a 1-degree world grid
+            origin = special >= 0.10 and crs != 4326
+            if origin:
+                ps, sx, sy = 1.0, 1, -1
+                src_aff = [1.0, 0.0, ox, 0.0, -1.0, oy]
+                x_lo, y_lo = ox, oy - sny
+            ki, kj = rng.choice([-1, 0, 0, 1]), rng.choice([-1, 0, 0, 1])
+            if origin and rng.random() < 0.5:
+                ki, kj = rng.choice([-3, -2, 2, 3]), rng.choice([-3, 2, 0])  # whole pixels, not whole chunks
+                scale_o = rng.choice([1.0, 1.0, 2.0, 0.5])
+            else:
+                ki, kj, scale_o = ki * sch[1], kj * sch[0], 1.0
+            dps = ps * scale_o
+            dnx = max(1, min(64, int(round(rng.choice([snx, snx, snx + sch[1], max(1, snx - sch[1])]) / scale_o))))
+            dny = max(1, min(64, int(round(rng.choice([sny, sny, sny + sch[0], max(1, sny - sch[0])]) / scale_o))))
+            dox, doy = ox + sx * ki * ps, oy + sy * kj * ps
+            dst_aff = [dps * sx, 0.0, dox, 0.0, dps * sy, doy]
+            aligned_chunks = True
+            if origin:
+                # translate both grids so that the chosen corner lies at (0, 0)
+                which = rng.choice(["src-chunk", "src-chunk", "dst-chunk", "dst-chunk", "src", "dst"])
+                if which == "src-chunk":
+                    cx, cy = ox + sch[1] * rng.randrange(0, -(-snx // sch[1])), oy - sch[0] * rng.randrange(0, -(-sny // sch[0]))
+                elif which == "dst-chunk":
+                    cx, cy = dox + dps * sch[1] * rng.randrange(0, -(-dnx // sch[1])), doy - dps * sch[0] * rng.randrange(0, -(-dny // sch[0]))
+                elif which == "src":
+                    cx, cy = ox, oy
+                else:
+                    cx, cy = dox, doy
+                src_aff[2], src_aff[5] = src_aff[2] - cx, src_aff[5] - cy
+                dst_aff[2], dst_aff[5] = dst_aff[2] - cx, dst_aff[5] - cy
         if mode == "same-exact" and place == "sliver" and rng.random() < 0.4:
             # a shear far below what can move a pixel centre across an edge within this raster
             dst_aff[1] = dps * rng.choice([9e-6, 2e-6, 5e-8])
@@ -251,6 +288,8 @@ def generate(rng: random.Random, tier: str) -> dict:
             "derive": {"place": place, "zoom": rng.choice([1.0, 1.0, 0.5, 1.7, 3.0]), "pad": [rng.randrange(0, 8) for _ in range(4)], "k": rng.choice([2, 3, 30])},
         }
     dch = [rng.choice([1, 2, 3, 5, 7, 16, 64]), rng.choice([1, 2, 3, 5, 7, 16, 64])]
+    if aligned_chunks and rng.random() < 0.8:
+        dch = list(sch)
     if mode == "cross-global":
         dch = list(rng.choice([[45, 90], [45, 45], [5, 90], [15, 30], [10, 36], [30, 30], [7, 16]]))
         if g_tpl.startswith("world-dst") and rng.random() < 0.4:
@@ -286,9 +325,27 @@ def generate(rng: random.Random, tier: str) -> dict:
     while -(-sny // sch[0]) * -(-snx // sch[1]) > cap * 2:
         ax = 0 if sny / sch[0] >= snx / sch[1] else 1
         sch[ax] = sch[ax] * 2 if sch[ax] > 1 else rng.choice([2, 3])
+    # pixels equal to the source nodata inside the source (what cloud masks and scene edges look like)
+    holes = rng.choice([2, 3, 5, 7]) if (src_nd is not None and rng.random() < 0.35) else 0
+    # a second request on the same dask source that differs in one parameter, computed in the same graph
+    pair = None
+    if mode != "cross-global" and rng.random() < 0.12:
+        vary = rng.choice(["dst_nodata", "dst_nodata", "src_nodata", "src_nodata", "resampling", "ds_src_nodata"])
+        if vary == "resampling":
+            alt: Any = "bilinear" if resampling == "nearest" else "nearest"
+        elif dtype == "bool":
+            cur = dst_nd if vary == "dst_nodata" else src_nd
+            alt = rng.choice([x for x in (None, 0, 1) if x != cur])
+        else:
+            cur = dst_nd if vary == "dst_nodata" else src_nd
+            pool = [None, 0, 7, 99, 100, 120] if dtype != "uint8" else [None, 0, 7, 99, 250, 255]
+            alt = rng.choice([x for x in pool if x != cur and not (cur == "nan" and x is None)])
+        pair = {"vary": vary, "alt": alt}
     config = {
         "mode": mode,
         "dtype": dtype,
+        "holes": holes,
+        "pair": pair,
         "src_nodata": src_nd,
         "dst_nodata": dst_nd,
         "tdim": tdim,
@@ -465,6 +522,10 @@ def execute(record: dict, rng: Optional[random.Random]) -> Outcome:
         "global_or_polar_pairs": 0,
         "global_pairs_raising": 0,
         "extreme_zoom_in": 0,
+        "paired_requests": 0,
+        "source_holds_nodata_pixels": 0,
+        "chunk_with_gdal_identity_transform": 0,
+        "destination_chunk_equals_source_chunk": 0,
     }
     dtype = cfg["dtype"]
     src_nd = float("nan") if cfg["src_nodata"] == "nan" else cfg["src_nodata"]
@@ -477,7 +538,24 @@ def execute(record: dict, rng: Optional[random.Random]) -> Outcome:
         shape = (sny, snx, bdim)
         probes["trailing_band_axis"] = 1
     fv = fill_value(dtype, src_nd, dst_nd)
-    data = make_data(shape, dtype, [src_nd, dst_nd, fv])
+    pair = cfg.get("pair")
+    src_nd2, dst_nd2, resampling2 = src_nd, dst_nd, cfg["resampling"]
+    if pair:
+        alt = float("nan") if pair["alt"] == "nan" else pair["alt"]
+        if pair["vary"] == "dst_nodata":
+            dst_nd2 = alt
+        elif pair["vary"] in ("src_nodata", "ds_src_nodata"):
+            src_nd2 = src_nd if (alt is None and pair["vary"] == "src_nodata") else alt  # keyword None: the attribute decides
+        else:
+            resampling2 = alt
+        probes["paired_requests"] = 1
+    fv2 = fill_value(dtype, src_nd2, dst_nd2)
+    data = make_data(shape, dtype, [src_nd, dst_nd, fv, src_nd2, dst_nd2, fv2])
+    if cfg.get("holes") and src_nd is not None:
+        # planted pixels equal to the source nodata (every k-th, phase 1: not aligned with chunk edges)
+        flat = data.reshape(-1)
+        flat[1 :: int(cfg["holes"])] = np.asarray(src_nd).astype(data.dtype)
+        probes["source_holds_nodata_pixels"] = 1
     if dtype in ("int8", "bool"):
         probes["int8_or_bool_detour"] = 1
     if hasattr(OD, "uuid4"):
@@ -509,13 +587,34 @@ def execute(record: dict, rng: Optional[random.Random]) -> Outcome:
         if dst_nd is not None:
             kw["dst_nodata"] = dst_nd
         ref = xr_reproject(xn, d_gbox, **kw).values
-        for rep, dcfg in enumerate(cfg["dask"]):
-            xd = wrap_xr(da.from_array(feed.copy(), chunks=sch, name=f"src{rep}-{cfg['uuid_seed']:032x}"), s_gbox, nodata=src_nd, time=time)
-            if cfg.get("dst_default"):
-                rd = xr_reproject(xd, d_gbox, **kw)
-                probes["default_destination_chunks"] = 1
+        kw2: Dict[str, Any] = {}
+        ref2 = None
+        if pair:
+            kw2 = {"resampling": resampling2}
+            if dst_nd2 is not None:
+                kw2["dst_nodata"] = dst_nd2
+            if pair["vary"] == "src_nodata":
+                kw2["src_nodata"] = src_nd2  # explicit keyword, the array's own attribute says otherwise
+                ref2 = xr_reproject(wrap_xr(feed.copy(), s_gbox, nodata=src_nd, time=time), d_gbox, **kw2).values
             else:
-                rd = xr_reproject(xd, d_gbox, chunks=tuple(cfg["dst_chunks"]), **kw)
+                ref2 = xr_reproject(wrap_xr(feed.copy(), s_gbox, nodata=src_nd2, time=time), d_gbox, **kw2).values
+        outs2: List[np.ndarray] = []
+        for rep, dcfg in enumerate(cfg["dask"]):
+            darr = da.from_array(feed.copy(), chunks=sch, name=f"src{rep}-{cfg['uuid_seed']:032x}")
+            xd = wrap_xr(darr, s_gbox, nodata=src_nd, time=time)
+            ckw: Dict[str, Any] = {} if cfg.get("dst_default") else {"chunks": tuple(cfg["dst_chunks"])}
+            if cfg.get("dst_default"):
+                probes["default_destination_chunks"] = 1
+            rd = xr_reproject(xd, d_gbox, **ckw, **kw)
+            rd2 = None
+            if pair and pair["vary"] == "ds_src_nodata":
+                import xarray as xr
+
+                # one Dataset, two variables over the very same dask array, different nodata attributes
+                rds = xr_reproject(xr.Dataset({"a": xd, "b": wrap_xr(darr, s_gbox, nodata=src_nd2, time=time)}), d_gbox, **ckw, **kw2)
+                rd, rd2 = rds["a"], rds["b"]
+            elif pair:
+                rd2 = xr_reproject(xd, d_gbox, **ckw, **kw2)
             ch.policy = dcfg.get("policy") or {"kind": "uniform"}
             kernel = Kernel(seam_funcs=_seams()) if dcfg["workers"] > 1 else None
             sim = DaskSim(
@@ -528,13 +627,18 @@ def execute(record: dict, rng: Optional[random.Random]) -> Outcome:
                 stall=dcfg["stall"],
                 kernel=kernel,
                 tag=f"r{rep}",
+                real=dcfg.get("real"),
             )
             sims.append(sim)
             try:
                 if kernel is not None:
                     activate(kernel)
                     probes["multi_worker_runs"] = 1
-                (res,) = dask.compute(rd, scheduler=sim, optimize_graph=dcfg["optimize"])
+                if rd2 is not None:
+                    res, res2 = dask.compute(rd, rd2, scheduler=sim, optimize_graph=dcfg["optimize"])
+                    outs2.append(np.asarray(res2.values))
+                else:
+                    (res,) = dask.compute(rd, scheduler=sim, optimize_graph=dcfg["optimize"])
             finally:
                 if kernel is not None:
                     kernel.shutdown()
@@ -558,7 +662,14 @@ def execute(record: dict, rng: Optional[random.Random]) -> Outcome:
     if v is None:
         assert ref is not None
         v = check(cfg, src, dst, ref, outs, fv, probes)
-    for o in outs:
+    if v is None and pair:
+        assert ref2 is not None
+        cfg2 = dict(cfg, resampling=resampling2, src_nodata=cfg["src_nodata"] if src_nd2 is src_nd else pair["alt"], dst_nodata=dst_nd2)
+        v = check(cfg2, src, dst, ref2, outs2, fv2, probes)
+        if v is not None:
+            v.detail = dict(v.detail or {}, second_request=pair)
+    _geometry_probes(cfg, src, dst, probes)
+    for o in outs + outs2:
         log.add("result", o.shape, str(o.dtype), _hash_arr(o))
     if _dst_px_in_src_px(src, dst) < 1 / 400:
         probes["extreme_zoom_in"] = 1
@@ -588,6 +699,30 @@ def execute(record: dict, rng: Optional[random.Random]) -> Outcome:
         "faults_head": [list(f) for f in ch.faults_out[:15]],
     }
     return Outcome(v, log.hex(), ch, stats={"probes": probes}, cls=cls, nontrivial=n_reproject > 2, sample=sample, steps=steps)
+
+
+def _geometry_probes(cfg: dict, src: dict, dst: dict, probes: dict) -> None:
+    """Reach probes for two circumstances the generator aims at: a source or destination chunk whose own
+    transform is the one GDAL takes for "not georeferenced", and destination chunks that coincide with
+    source chunks."""
+    try:
+        sa, da_ = _affine(src["aff"]), _affine(dst["aff"])
+    except Exception:  # pylint: disable=broad-except
+        return
+    if src["crs"] != dst["crs"] or any(abs(x) > 0 for x in (sa.b, sa.d, da_.b, da_.d)):
+        return
+    sch = cfg["src_irregular"] or [[cfg["src_chunks"][0]] * -(-src["shape"][0] // cfg["src_chunks"][0]), [cfg["src_chunks"][1]] * -(-src["shape"][1] // cfg["src_chunks"][1])]
+    dch = [[cfg["dst_chunks"][0]] * -(-dst["shape"][0] // cfg["dst_chunks"][0]), [cfg["dst_chunks"][1]] * -(-dst["shape"][1] // cfg["dst_chunks"][1])]
+
+    def corners(a, chunks):
+        ys, xs = np.cumsum([0] + list(chunks[0]))[:-1], np.cumsum([0] + list(chunks[1]))[:-1]
+        return {(a.c + a.a * x, a.f + a.e * y) for x in xs for y in ys}
+
+    for a, chunks in ((sa, sch), (da_, dch)):
+        if (a.a, a.e) == (1.0, -1.0) and (0.0, 0.0) in corners(a, chunks):
+            probes["chunk_with_gdal_identity_transform"] = 1
+    if (sa.a, sa.e) == (da_.a, da_.e) and cfg["src_chunks"] == cfg["dst_chunks"] and corners(sa, sch) & corners(da_, dch):
+        probes["destination_chunk_equals_source_chunk"] = 1
 
 
 def rng_bdim_chunk(cfg: dict, bdim: int) -> int:
@@ -687,11 +822,19 @@ def check(cfg, src, dst, ref: np.ndarray, outs: List[np.ndarray], fv, probes) ->
                 sig,
                 {"n": int(len(bad)), "first": bad[0].tolist(), "got": repr(got), "fill": repr(fv), "memory_has": repr(rp[tuple(bad[0])]), "dst_chunks": cfg["dst_chunks"], "kind": np.dtype(dtype).kind, "nodata": [cfg["src_nodata"], cfg["dst_nodata"]]},
             )
-        # O13.5 interior coverage
-        if inner.any():
+        # O13.5 interior coverage.  With nodata pixels planted in the source the fill mask of the interior is
+        # pixel content: across CRSs GDAL's approximate transformer may pick the neighbouring source pixel
+        # (outside the statement), and on inexact grids exact ties are left out as they are for O13.1
+        inner_ = inner
+        if cfg.get("holes"):
+            if src["crs"] != dst["crs"]:
+                inner_ = np.zeros_like(inner)
+            elif cfg["mode"] != "same-exact":
+                inner_ = inner & ~((np.abs(sc - np.round(sc)) < 1e-6) | (np.abs(sr - np.round(sr)) < 1e-6))
+        if inner_.any():
             f_m = is_fill(rp, fv)
-            if not np.array_equal(f_c[inner], f_m[inner]):
-                bad = np.argwhere(inner & (f_c != f_m))
+            if not np.array_equal(f_c[inner_], f_m[inner_]):
+                bad = np.argwhere(inner_ & (f_c != f_m))
                 if cfg["resampling"] != "nearest":
                     # kernel support reaching into a source tile that is not a dependency of the
                     # chunk: the statement promises nothing here (DESIGN 7.2), counted only
@@ -755,10 +898,10 @@ def candidates(record: dict) -> Iterable[dict]:
         c = copy.deepcopy(record)
         c["config"]["bdim"] = 0
         yield c
-    for k in ("src_irregular", "dst_default", "ns_irregular", "big_endian_input"):
+    for k in ("src_irregular", "dst_default", "ns_irregular", "big_endian_input", "pair", "holes"):
         if cfg.get(k):
             c = copy.deepcopy(record)
-            c["config"][k] = False if k in ("dst_default", "big_endian_input") else None
+            c["config"][k] = False if k in ("dst_default", "big_endian_input") else (0 if k == "holes" else None)
             yield c
     for k, simple in (("resampling", "nearest"), ("dst_nodata", None), ("src_nodata", None), ("dtype", "uint8"), ("dtype", "float32"), ("time_chunk", 1)):
         if cfg.get(k) != simple:
